@@ -440,7 +440,7 @@ func init() {
 			if c.IsFalse() {
 				in.end("infeasible", "assume(false)")
 			}
-			if in.ctl.replaying() {
+			if in.ctl.replaying() || leafDistinctness(c) {
 				in.addPC(c)
 				return nil
 			}
@@ -619,4 +619,22 @@ func sortSliceStub(in *Interp, fn *ssa.Function, args []Value) Value {
 		}
 	}
 	return nil
+}
+
+// leafDistinctness recognises "Atom(id1) != Atom(id2)" between leaf-id variables (or a variable and a
+// constant).  Leaf ids range over 2^40 values and are only ever constrained by such disequalities, so
+// the assumption is always satisfiable and needs no solver call.
+func leafDistinctness(c *Term) bool {
+	if c.op != ONot || c.args[0].op != OEq {
+		return false
+	}
+	a, b := c.args[0].args[0], c.args[0].args[1]
+	if a.sort.K == KHash {
+		if a.op != OHAtom || b.op != OHAtom {
+			return false
+		}
+		a, b = a.args[0], b.args[0]
+	}
+	isLeafVar := func(t *Term) bool { return t.op == OVar && strings.HasPrefix(t.name, "leaf_") }
+	return (isLeafVar(a) && (isLeafVar(b) || b.IsConst())) || (isLeafVar(b) && a.IsConst())
 }
